@@ -219,3 +219,64 @@ def panicSafe (nFns : Nat) (items : List Item) : Bool :=
   (List.range nFns).all (fun f => panicSafeFrom (itemsOf items f))
 
 end Restful.Conc
+
+/-! ### bracketing (used by the soundness theorem of the analysis, Lemmas/ConcSound.lean)
+
+`check` looks at the locks held when an item executes; it does not look at how locks are given
+back.  The soundness of its verdict w.r.t. an execution semantics of the facts
+(Lemmas/ConcSem.lean) needs the lexical held-set of `annotate` to be the set of locks the function
+really holds at that point, which is a matter of bracketing: what `annotate` drops at the end of a
+func literal / of the function is exactly what the registered `defer`s release there, an explicit
+release gives back a lock that is lexically held, in the mode it was taken in, and nothing of a
+reachable function sits in a func literal that runs later (whose locks would be those of another
+time).  This is a syntactic check of the facts, function by function. -/
+namespace Restful.Conc
+open Gen
+
+/-- the item sits in a func literal that does not run on the spot -/
+def detached (it : Item) : Bool := it.depth > 0 && !it.inline
+
+/-- the pending deferred releases after an item: those registered in func literals that have ended
+    are gone (they ran), a `defer x.Unlock()` registers one -/
+def deferNext (ds : List Held) (it : Item) : List Held :=
+  let ds := ds.filter (fun h => h.depth ≤ it.depth)
+  if detached it then ds else
+  match it.op with
+  | .deferRel l m => ⟨l, m, it.depth⟩ :: ds
+  | _ => ds
+
+/-- `hs`: the lexical held-set of `annotate` (same walk: `stepHeld`), `ds`: the pending deferred
+    releases.  At every item: what `annotate` drops because a func literal ended is exactly what the
+    deferred releases of that literal give back; an explicit release concerns a lexically held lock
+    in its mode; at the end of the function every lock still held has its deferred release. -/
+def bracketedFrom : List Held → List Held → List Item → Bool
+  | hs, ds, [] => hs == ds
+  | hs, ds, it :: rest =>
+    !detached it &&
+    hs == ds.filter (fun h => it.depth < h.depth) ++ hs.filter (fun h => h.depth ≤ it.depth) &&
+    (match it.op with
+     | .rel l m =>
+       (match (hs.filter (fun h => h.depth ≤ it.depth)).find? (fun h => h.lock == l) with
+        | some h => h.mode == m
+        | none => false)
+     | _ => true) &&
+    bracketedFrom (stepHeld hs it) (deferNext ds it) rest
+
+/-- every function reachable from the entry points is bracketed -/
+def bracketed (nFns : Nat) (items : List Item) (must : Ctx) : Bool :=
+  (List.range nFns).all (fun f => (ctxGet must f).isNone || bracketedFrom [] [] (itemsOf items f))
+
+def Analysis.bracketed (a : Analysis) (names : List String) (items : List Item) : Bool :=
+  Conc.bracketed names.length items a.must
+
+/-- every reachable access has its guard among the LEXICALLY held locks (the contexts guaranteed
+    by the callers are not needed) -/
+def Analysis.lexicallyGuarded (a : Analysis) : Bool :=
+  a.ann.all (fun (it, hs) =>
+    (ctxGet a.must it.fn).isNone ||
+    (match it.op with
+     | .read f => it.nonDynamic || holds hs (guardOf f) false
+     | .write f => holds hs (guardOf f) true
+     | _ => true))
+
+end Restful.Conc
